@@ -6,6 +6,12 @@ import GMModel.Restr
     Manager._validate_index                → `validateIndex`      (REPAIRED: negative indices rejected, O2)
     Manager.parse_restrictions             → `parseRestrictions`  (guess_proteins = False, the value
                                                                     `Manager.align_molecules` uses)
+    Manager.parse_restrictions(…, guess_proteins)
+                                           → `parseRestrictionsG` (both values of the flag, `restrictions` None or a
+                                                                    dictionary; composed with
+                                                                    `align_molecules(parse_restrictions=False)`:
+                                                                    `managerAlignGuess`)
+    Manager.add_end_molecule               → `addEndMolecule`
     Manager._parse_deformations            → `parseDeformations`  (REPAIRED: values validated, D10)
     Manager._parse_ignore_hydrogens        → `parseIgnore`
     Manager.align_molecules                → `managerAlign`       (parse_restrictions = True, the default,
@@ -287,5 +293,118 @@ def managerAlignPreparsed (sys : List (Species P)) (restrictions : Dict (Option 
     match parseIgnore sys ignore with
     | .error e => ⟨[], some e⟩
     | .ok h => alignLoop (complete sys) d h restrictions
+
+/-! ### `parse_restrictions(restrictions, guess_proteins)` — the flag as the code handles it -/
+
+/-- `len(start.resnames) > 3` -/
+def Species.big (sp : Species P) : Bool := decide (sp.start.resnames.length > 3)
+
+/-- `restrictions is None`:
+    `for name in self.complete_correspondence: new_restrictions[name] = None;
+       if guess_proteins: … if len(resnames) > 3: restr = guess_protein_restrains(start, end);
+                                                  new_restrictions[name] = restr; continue`
+    (an `IOError` of the guesser is not caught) -/
+def parseRestrNoneLoopG (guess : Bool) :
+    List (Species P × Mol P) → Except PyErr (Dict (Option (List Pair)))
+  | [] => .ok []
+  | (sp, e) :: rest =>
+    let here : Except PyErr (Option (List Pair)) :=
+      if guess then
+        if sp.big then
+          match guessProtein sp.start e with
+          | .error err => .error err
+          | .ok restr => .ok (some restr)
+        else .ok none
+      else .ok none
+    match here with
+    | .error err => .error err
+    | .ok v =>
+      match parseRestrNoneLoopG guess rest with
+      | .error err => .error err
+      | .ok d => .ok ((sp.name, v) :: d)
+
+/-- the loop `for name in complete_correspondence:` with a dictionary:
+    `if guess_proteins: … if len(resnames) > 3: new_restrictions[name] = guess_protein_restrains(start, end); continue`
+    — the value the user stored under that name is not even looked at — then the normal path -/
+def parseRestrLoopG (restrictions : Dict RestrArg) (guess : Bool) :
+    List (Species P × Mol P) → Except PyErr (Dict (Option (List Pair)))
+  | [] => .ok []
+  | (sp, e) :: rest =>
+    let normal : Except PyErr (Option (List Pair)) :=
+      match restrictions.lookup sp.name with
+      | none => .ok none
+      | some .falsy => .ok none
+      | some .nonIterable => .error .typeError
+      | some (.list entries) =>
+        match validateIndex sp.start e entries with
+        | .error err => .error err
+        | .ok l => .ok (some l)
+    let here : Except PyErr (Option (List Pair)) :=
+      if guess then
+        if sp.big then
+          match guessProtein sp.start e with
+          | .error err => .error err
+          | .ok restr => .ok (some restr)
+        else normal
+      else normal
+    match here with
+    | .error err => .error err
+    | .ok v =>
+      match parseRestrLoopG restrictions guess rest with
+      | .error err => .error err
+      | .ok d => .ok ((sp.name, v) :: d)
+
+/-- `Manager.parse_restrictions(restrictions, guess_proteins)` -/
+def parseRestrictionsG (sys : List (Species P)) (restrictions : Option (Dict RestrArg))
+    (guess : Bool) : Except PyErr (Dict (Option (List Pair))) :=
+  match restrictions with
+  | none => parseRestrNoneLoopG guess (complete sys)
+  | some restrictions =>
+    match checkNamesKnown (completeNames sys) restrictions with
+    | .error e => .error e
+    | .ok () => parseRestrLoopG restrictions guess (complete sys)
+
+/-- the only way the flag reaches an alignment:
+    `parsed = manager.parse_restrictions(restrictions, guess_proteins=guess)` followed by
+    `manager.align_molecules(parsed, deformation_types, ignore_hydrogens, parse_restrictions=False)`
+    (`Manager.align_molecules` itself always parses with `guess_proteins=False`) -/
+def managerAlignGuess (sys : List (Species P)) (restrictions : Option (Dict RestrArg))
+    (deformations : Option (Dict DefArg)) (ignore : Option (Dict IgnArg)) (guess : Bool) : RouteOut P :=
+  match parseRestrictionsG sys restrictions guess with
+  | .error e => ⟨[], some e⟩
+  | .ok r => managerAlignPreparsed sys r deformations ignore
+
+/-! ### `Manager.add_end_molecule` -/
+
+/-- `molecule_correspondence` as the manager holds it: name ↦ `Alignment` state, in dict order -/
+abbrev Corr (M : Type) := List (PStr × AliState M)
+
+/-- `d[name] = v` for a key that is present (dict order unchanged) -/
+def Corr.set {M : Type} (c : Corr M) (name : PStr) (v : AliState M) : Corr M :=
+  c.map fun kv => if kv.1 == name then (kv.1, v) else kv
+
+/-- `Manager.add_end_molecule(molecule)`: `TypeError` for a non-`Molecule` (`None` included),
+    `KeyError` when no species has the molecule's name, otherwise the `end` setter of that species'
+    `Alignment` (which may raise `ValueError`) -/
+def addEndMolecule {M : Type} (ident : M → MolId) (c : Corr M) : SetArg M → Except PyErr (Corr M)
+  | .none => .error .typeError
+  | .nonMolecule => .error .typeError
+  | .mol molecule =>
+    let name := (ident molecule).name
+    match c.lookup name with
+    | none => .error .keyError
+    | some st =>
+      match setEnd ident st (.mol molecule) with
+      | .error e => .error e
+      | .ok st' => .ok (c.set name st')
+
+/-- `Manager.add_end_molecules(*molecules)`: `for mol in molecules: self.add_end_molecule(mol)` — the first
+    exception ends the loop, the molecules before it stay added -/
+def addEndMolecules {M : Type} (ident : M → MolId) : Corr M → List (SetArg M) → Corr M × Option PyErr
+  | c, [] => (c, none)
+  | c, a :: rest =>
+    match addEndMolecule ident c a with
+    | .error e => (c, some e)
+    | .ok c' => addEndMolecules ident c' rest
 
 end Restr
